@@ -452,7 +452,7 @@ class VBM:
                     origin = None
                     if roots:
                         fw = sorted(((first_writer[r][0].lineno, first_writer[r][1]) for r in roots if r in first_writer))
-                        origin = (f.qual, fw[0][1] if fw else '?', stmt_head(n.ast)[:240])
+                        origin = (f.qual, fw[0][1] if fw else '?', stmt_head(n.ast)[:240], getattr(n.ast, 'lineno', 0))
                     events.add((key, roots, origin))
                 elif cls is None and n.ast.exc is None:
                     # bare re-raise inside a handler: whatever the calls of the guarded body may have raised
@@ -483,7 +483,7 @@ class VBM:
                                             org = origin if mapped else None
                                             if allr and org is None:
                                                 own = sorted(((first_writer[r][0].lineno, first_writer[r][1]) for r in allr if r in first_writer))
-                                                org = (f.qual, own[0][1] if own else '?', stmt_head(bn.stmt)[:240])
+                                                org = (f.qual, own[0][1] if own else '?', stmt_head(bn.stmt)[:240], getattr(bn.stmt, 'lineno', 0))
                                             events.add((key, allr, org))
             if 'callexc' in labs:
                 cur, evs = call_effects(n, st)
@@ -491,7 +491,7 @@ class VBM:
                     if roots and origin is None:
                         # the split between mutation and refusal is in this function
                         own = sorted(((first_writer[r][0].lineno, first_writer[r][1]) for r in roots if r in first_writer))
-                        origin = (f.qual, own[0][1] if own else '?', stmt_head(g.nodes[n.id].stmt)[:240] if n.stmt is not None else norm(c.node)[:240])
+                        origin = (f.qual, own[0][1] if own else '?', stmt_head(g.nodes[n.id].stmt)[:240] if n.stmt is not None else norm(c.node)[:240], getattr(n.stmt if n.stmt is not None else c.node, 'lineno', 0))
                     events.add((key, roots, origin))
         normal = IN[g.exit.id] or frozenset()
         # calls at the last nodes are included through transfer of their nodes -> exit edge
